@@ -29,5 +29,10 @@ if not ok:
 for f in sorted(os.listdir(os.path.join(vlib.VERIF, "harness"))):
     if f.endswith(".c") and not f.startswith("_"):
         for v in ("hook", "san"):
-            vlib.cc_harness(f[:-2], impls[v])
+            try:
+                vlib.cc_harness(f[:-2], impls[v])
+            except vlib.ImplBuildError:
+                # drivers that need extra objects (e.g. ctxdrv + ctxprobe.asm) are built by their own check
+                print("harness", f, "is built by its own check")
+                break
 print("setup done")
